@@ -267,7 +267,7 @@ Definition wbody : stmt :=
 (seq [(SIf (ICmp CEq (IVar "display") (IConst 1))
 SSkip
 SSkip);
-(SRetI (IBin IAdd (IConst 130000) (IConst 121)))])
+(SRetI (IBin IAdd (IConst 130000) (IConst 1)))])
 SSkip);
 (SIf (IOr (IOr (IOr (IOr (IFCmp CLt (FVar "val1") (FUn FNeg (FLit (0x1.5798ee2308c3ap-27)%float 1 100000000))) (IFCmp CLt (FVar "val2") (FUn FNeg (FLit (0x1.5798ee2308c3ap-27)%float 1 100000000)))) (IFCmp CGt (FBin FSub (FVar "t2") (FVar "t1")) (FOfInt (IVar "maxgapsec")))) (IIsnan (FVar "val2"))) (IIsnan (FVar "val1")))
 (SSetI "miss" (IConst 1))
@@ -311,7 +311,7 @@ Lemma wbody_exec (callf : callee T) n i s e nan hvs k t1 v1 hv miss a t2 it1 it2
   exec N X callf n wbody
     (vst i (Z.of_nat k) (b2z miss) a hv t1 t2 it1 it2 v1 val2 s e nan vali1 vali2 hvs)
   = if nltb N t2n t1 then
-      Ok (ORet (RI 130121),
+      Ok (ORet (RI 130001),
           vst i (Z.of_nat k) (b2z miss) a hv t1 t2n it1 it2 v1 v2n s e nan vali1 vali2 hvs)
     else if (List.length sec <=? S (S k))%nat then
       Ok (OBreak,
@@ -405,7 +405,7 @@ Proof.
   cbv zeta in Hb. rewrite Hb. clear Hb.
   destruct (nltb N (nofZ N (tsec sec (S k))) t1) eqn:Ht21.
   { intros _. eexists. split; [reflexivity|].
-    exists 130121. eexists. split; [lia|]. split; [|reflexivity]. split; reflexivity. }
+    exists 130001. eexists. split; [lia|]. split; [|reflexivity]. split; reflexivity. }
   destruct (List.length sec <=? S (S k))%nat eqn:Hbrk.
   { intros _. eexists. split; [reflexivity|]. cbn [wpost].
     do 9 eexists. reflexivity. }
@@ -712,10 +712,10 @@ Definition fbody : stmt :=
 (SSetF "nbsec_per_period_d" (FOfInt (IVar "nbsec_per_period")));
 (SSetF "zero" (FLit 0%float 0 1));
 (SIf (IOr (ICmp CLt (IVar "rainfall") (IConst 0)) (ICmp CGt (IVar "rainfall") (IConst 1)))
-(SRetI (IBin IAdd (IConst 130000) (IConst 36)))
+(SRetI (IBin IAdd (IConst 130000) (IConst 1)))
 SSkip);
 (SIf (IAnd (ICmp CNe (IVar "nbsec_per_period") (IConst 1800)) (ICmp CNe (IVar "nbsec_per_period") (IConst 3600)))
-(SRetI (IBin IAdd (IConst 130000) (IConst 39)))
+(SRetI (IBin IAdd (IConst 130000) (IConst 1)))
 SSkip);
 (SIf (ICmp CEq (IVar "display") (IConst 1))
 SSkip
@@ -728,7 +728,7 @@ SSkip);
 (seq [(SIf (ICmp CEq (IVar "display") (IConst 1))
 SSkip
 SSkip);
-(SRetI (IBin IAdd (IConst 130000) (IConst 64)))])
+(SRetI (IBin IAdd (IConst 130000) (IConst 1)))])
 SSkip);
 (SSetF "nan" FNan);
 (SSetI "ierr" (IConst 0));
@@ -793,7 +793,7 @@ Proof.
   destruct ((rain <? 0) || (1 <? rain)) eqn:Hr.
   { erewrite exec_seq_stop;
       [ | cbn; rewrite !truth_b2z, or_ok; cbn; rewrite truth_b2z, Hr; cbn; reflexivity | discriminate ].
-    eexists. split; [reflexivity|]. exists 130036. do 2 eexists.
+    eexists. split; [reflexivity|]. exists 130001. do 2 eexists.
     split; [lia|]. split; [reflexivity|]. split; [|reflexivity]. split; reflexivity. }
   step_with ltac:(cbn; rewrite !truth_b2z, or_ok; cbn; rewrite truth_b2z, Hr; cbn; reflexivity).
   cbn [VAR2H_C_PERIODS existsb].
@@ -802,7 +802,7 @@ Proof.
   destruct (negb (P =? 1800) && negb (P =? 3600)) eqn:HP.
   { erewrite exec_seq_stop;
       [ | cbn; rewrite !truth_b2z, and_ok; cbn; rewrite truth_b2z, HP; cbn; reflexivity | discriminate ].
-    eexists. split; [reflexivity|]. exists 130039. do 2 eexists.
+    eexists. split; [reflexivity|]. exists 130001. do 2 eexists.
     split; [lia|]. split; [reflexivity|]. split; [|reflexivity]. split; reflexivity. }
   step_with ltac:(cbn; rewrite !truth_b2z, and_ok; cbn; rewrite truth_b2z, HP; cbn; reflexivity).
   step_with ltac:(cbn; rewrite if_same; reflexivity).
@@ -817,10 +817,10 @@ Proof.
       [ | cbn; rewrite if_same; cbn; reflexivity | discriminate ].
     eexists. split; [reflexivity|].
     destruct (Nat.ltb_spec 0 (List.length sec)) as [Hl|Hl].
-    - exists 130064. do 2 eexists.
+    - exists 130001. do 2 eexists.
       split; [lia|]. split; [reflexivity|]. split; [|reflexivity]. split; reflexivity.
     - split.
-      + intros _. exists 130064. eexists. split; [lia|]. split; [|reflexivity]. split; reflexivity.
+      + intros _. exists 130001. eexists. split; [lia|]. split; [|reflexivity]. split; reflexivity.
       + intros Hne. exfalso. apply Hne. apply length_zero_iff_nil. lia. }
   replace (Z.of_nat (S v) - 1) with (Z.of_nat v) by lia.
   step_with ltac:(cbn; zb; cbn; reflexivity).
